@@ -85,7 +85,14 @@ def run(base_seed, idx, stats, opts):
     est = None
     for k in range(K_SCHEDULES[tier]):
         sched_seed = rng.getrandbits(48)
-        spec = {"strategy": "rtc"} if k == 0 else sched.make_spec(random.Random(sched_seed ^ 0x5EED), est or 1000)
+        if k == 0:
+            spec = {"strategy": "rtc"}
+        elif k == 1:
+            # the ladder: worker i runs exactly d instructions ahead of worker i+1, one instruction each in turn
+            lr = random.Random(sched_seed)
+            spec = {"strategy": "lockstep", "q": lr.choice((1, 2, 3)), "ladder": lr.randint(1, 13)}
+        else:
+            spec = sched.make_spec(random.Random(sched_seed ^ 0x5EED), est or 1000)
         try:
             sess = execute_one(w, poolsize, spec, ref, stats, log, sched_seed=sched_seed, est=est)
         except Violation as v:
@@ -155,6 +162,9 @@ RULE = ("seeded cube workloads (ccube or xcube; 1-3 dimensions of shape (N,), (N
         "NaN-marked or (values, validity) facts, none/scalar/array weights, both missing policies, three report "
         "formats); per workload one serial reference and K pooled evaluations (pool size 1-16) each under its own "
         "seeded schedule: run-to-completion with random chunk order, uniform switch probability "
-        "{0.002,0.01,0.05,0.2,1.0}, PCT with 1-3 priority change points, targeted 1-4 pre-empt/resume pairs; "
+        "{0.002,0.01,0.05,0.2,1.0}, PCT with 1-3 priority change points, targeted 1-4 pre-empt/resume pairs, burst (a switch at "
+        "every instruction inside one window of 30-1000 steps, often at the very start), lockstep (round-robin, 1-13 "
+        "instructions each, after per-thread head starts of 0-60 instructions; one schedule per workload is the 'ladder': "
+        "worker i exactly d in 1..13 instructions ahead of worker i+1); "
         "pre-emption points are all bytecode instructions of catii code. evaluations = workloads; distinct "
         "non-trivial = distinct workloads with >= 3 sub-cubes and >= 1 row; distinct schedules are reported separately")
